@@ -694,12 +694,15 @@ def history(letters):
             "steps": steps}
 
 
-def sweep_histories(maxlen):
+def sweep_histories(maxlen, full_pairs=True):
+    """length 1: full alphabet; length 2: full alphabet (thorough) or reduced alphabet (quick);
+    length 3: reduced alphabet."""
     names = sorted(ALPHABET)
     for L in names:
         yield (L, )
     if maxlen >= 2:
-        for a, b in itertools.product(names, names):
+        two = names if full_pairs else sorted(ALPHABET3)
+        for a, b in itertools.product(two, two):
             yield (a, b)
     if maxlen >= 3:
         for t in itertools.product(sorted(ALPHABET3), repeat=3):
@@ -726,7 +729,7 @@ def phase_sweep(run, pool, maxlen):
 
     jobs = ({"id": i, "kind": "program", "program": history(L), "letters": list(L), "want_program": False,
              "want_results": True, "deadline": 240, "run_seed": "sweep:" + "+".join(L)}
-            for i, L in enumerate(sweep_histories(maxlen)))
+            for i, L in enumerate(sweep_histories(maxlen, full_pairs=maxlen >= 3)))
     pool.run(jobs, on, stop_flag=lambda: len(run.violations) >= 5 or len(run.harness) >= 5 or len(conflicts) >= 3)
     for key, a, b in conflicts[:2]:
         prog = history(b[1])
@@ -737,8 +740,11 @@ def phase_sweep(run, pool, maxlen):
                                     "call": key, "history_a": a[1], "history_b": b[1]}},
                                 "pair": [history(a[1]), prog]}))
     run.phase_info["exhaustive_sweep"] = {
-        "alphabet_size": len(ALPHABET), "alphabet3_size": len(ALPHABET3), "max_length": maxlen, "histories": n[0],
-        "exhaustive": True, "distinct_calls_compared_across_histories": len(table),
+        "alphabet_size": len(ALPHABET), "reduced_alphabet_size": len(ALPHABET3), "max_length": maxlen, "histories": n[0],
+        "exhaustive": True,
+        "exhaustive_over": ("all 1-letter histories of the full alphabet, all 2-letter histories of the %s alphabet%s"
+                            % ("full" if maxlen >= 3 else "reduced", ", all 3-letter histories of the reduced alphabet"
+                               if maxlen >= 3 else "")), "distinct_calls_compared_across_histories": len(table),
         "history_independence_conflicts": len(conflicts), "wall_s": round(time.time() - t, 1)}
     run.stats["sweep_histories"] += n[0]
 
